@@ -429,6 +429,8 @@ def check_create_config(rng, n):
             # bounding box on or between grid lines, inclusive on both ends
             i0, i1 = sorted((rng.randrange(nlat), rng.randrange(nlat)))
             j0, j1 = sorted((rng.randrange(nlon), rng.randrange(nlon)))
+            if category == "normal" and rng.random() < 0.25:
+                i1, j1 = i0, j0               # exactly one grid cell in the box
             if category == "zerosum":
                 # make the selected block sum to zero with non-zero entries
                 j1 = max(j1, j0 + 1) if j0 + 1 < nlon else j1
@@ -463,7 +465,7 @@ def check_create_config(rng, n):
             path = os.path.join(tmp, f"clim_{k}.nc")
             ds.to_netcdf(path, engine="scipy")
             start = pd.Timestamp("2020-01-01") + pd.Timedelta(days=rng.randint(0, 364))
-            end = start + pd.Timedelta(days=rng.randint(1, 120))
+            end = start + pd.Timedelta(days=1 if rng.random() < 0.25 else rng.randint(1, 120))   # one day: a 1 x k selection
             fx = rng.choice(SPAN_FX)
             vcfg = {"variable": "temp", "bbox": bbox, "start_time": start.strftime("%Y-%m-%d"),
                     "end_time": end.strftime("%Y-%m-%d"),
